@@ -12,15 +12,21 @@
      - exactness: the selector returned for a dotted name is registered for the very object the attribute
        chain denotes (universes in which a class does not share an identity with its own attribute; a
        refutation shows the hypothesis is needed in the model);
-     - spellings: a second spelling of an already registered function yields the same configurable and
-       changes nothing; the registry stays a function of selectors (no duplicates) and never loses or
-       re-targets an entry;
+     - spellings: a second spelling of an already registered function, method or class yields the same
+       configurable and changes nothing; a class reached as the parent of a method through a second spelling
+       keeps its selector, the method is registered under it, and no object ever has two registrations
+       (C19_one_configurable_per_object; the code that registered the class a second time, F22, is refuted as
+       C19_orig_class_registered_twice / C19_orig_valid_method_statement_rejected); the registry stays a
+       function of selectors (no duplicates) and never loses or re-targets an entry;
      - references keep working: across any run (successful or failed) every recorded reference still names a
        registered selector and the same object as when it was created, and after a re-registration the
        re-pointed reference names the LATEST registration of its object;
      - config_str header: bound names are re-aliased to be unique; it depends on the recorded imports up to
-       permutation only (C19_header_import_order_independent, F37).
-   Two deviations of the implementation from this model are recorded findings (F21, F22), see
+       permutation only (C19_header_import_order_independent, F37);
+     - recorded imports: an import statement that took effect is recorded whatever the statements after it do
+       (C19_effective_imports_recorded; the code that recorded them after the last statement only is refuted as
+       C19_orig_failed_parse_loses_imports).
+   One deviation of the implementation from this model is a recorded finding (F21), see
    known_findings.json; whole-text round trip of config_str is validated on the implementation. *)
 From Coq Require Import List String ZArith Bool Arith Sorting.Permutation.
 From GinV Require Import Lib.Out Lib.PyStr Model.SelectorMap Model.Serial Model.DynReg Proofs.SerialProofs Proofs.DynRegProofs Proofs.DynRegSkip Proofs.DynRegProofs2.
@@ -114,15 +120,63 @@ Theorem C19_exact_object_needs_distinct_ids :
 Proof. exact Counterexamples.C19_exact_object_orig_refuted. Qed.
 
 (* ---- spellings; the registry ---- *)
+(* any object -- function, METHOD or class -- resolved through one spelling and then through another one: the second
+   resolution hands back the same configurable and changes nothing (the first chain is not a method's, or carries
+   distinct ids as every chain of a universe with class_ids_ok does) *)
 Theorem C19_spelling_same_configurable : forall reg c1 c2 sel1 sel2 reg1 full1 rp1 reg2 full2 rp2 i,
   reg_wf reg -> c_dynamic c1 = true -> c_dynamic c2 = true ->
   get_configurable reg c1 sel1 = DOk (reg1, full1, rp1) ->
-  (exists root d chain, tget (hd "" (split_dot sel1)) (c_table c1) = Some (root, d) /\ follow root (tl (split_dot sel1)) [] = Some chain /\ last chain POther = PFunc i /\
-     (forall p, nth_error (rev chain) 1 = Some p -> is_class p = false)) ->
+  (exists root d chain, tget (hd "" (split_dot sel1)) (c_table c1) = Some (root, d) /\ follow root (tl (split_dot sel1)) [] = Some chain /\
+     obj_id (last chain POther) = Some i /\ (is_method_chain chain = false \/ distinct_ids chain = true)) ->
   get_configurable reg1 c2 sel2 = DOk (reg2, full2, rp2) ->
-  (exists root d chain, tget (hd "" (split_dot sel2)) (c_table c2) = Some (root, d) /\ follow root (tl (split_dot sel2)) [] = Some chain /\ last chain POther = PFunc i) ->
+  (exists root d chain, tget (hd "" (split_dot sel2)) (c_table c2) = Some (root, d) /\ follow root (tl (split_dot sel2)) [] = Some chain /\
+     obj_id (last chain POther) = Some i) ->
   full2 = full1 /\ reg2 = reg1.
 Proof. exact DynRegProofs.C19_spelling_same_configurable. Qed.
+(* F22 (repaired code): a class that is already registered, through whatever spelling, and is now reached as the parent of
+   an unregistered method keeps its selector and import source; the method is registered under <class selector>.<name> *)
+Theorem C19_class_keeps_selector_via_method : forall reg c sel reg' full rp root d chain leaf parent rest i cid ec,
+  c_dynamic c = true -> get_configurable reg c sel = DOk (reg', full, rp) ->
+  tget (hd "" (split_dot sel)) (c_table c) = Some (root, d) -> follow root (tl (split_dot sel)) [] = Some chain ->
+  rev chain = leaf :: parent :: rest ->
+  is_func leaf = true -> is_class parent = true -> obj_id leaf = Some i -> obj_id parent = Some cid -> i <> cid ->
+  find_obj i reg = None -> find_obj cid reg = Some ec ->
+  full = (ce_sel ec ++ "." ++ last (split_dot sel) "")%string /\
+  (exists e', find_obj cid reg' = Some e' /\ ce_sel e' = ce_sel ec /\ ce_src e' = ce_src ec /\ ce_home e' = ce_home ec) /\
+  (exists em, find_obj i reg' = Some em /\ ce_sel em = full).
+Proof. exact DynRegProofs.C19_class_keeps_selector_via_method. Qed.
+(* one configurable per object: after any sequence of parse calls (each with its own skip_unknown, failed or not) from
+   a start in which no object is registered twice, no object has two registrations -- the inverse registry is a
+   function -- and every registry entry's object maps back to that entry *)
+Theorem C19_one_configurable_per_object : forall univ pre sr, one_per_obj pre -> reachable univ pre sr ->
+  one_per_obj (ds_reg (fst sr)) /\
+  (forall e, In e (ds_reg (fst sr)) -> find_obj (ce_obj e) (ds_reg (fst sr)) = Some e).
+Proof. exact DynRegProofs2.C19_one_configurable_per_object. Qed.
+Theorem C19_one_configurable_per_object_step : forall reg c sel reg' full rp, one_per_obj reg ->
+  get_configurable reg c sel = DOk (reg', full, rp) -> one_per_obj reg'.
+Proof. exact DynRegProofs2.get_configurable_one_per_obj. Qed.
+(* the code before the repair (F22):  from pkgb import util / util.C.x = 1  then  import pkgb.util as u / u.C.meth.x = 5
+   registered the class a second time, as pkgb.u.C: one class, two configurables *)
+Theorem C19_orig_class_registered_twice :
+  one_per_obj [] /\
+  OrigRespelled.regs (get_configurable_orig [] OrigRespelled.c1 "util.C") = inl ([("pkgb.util.C", 1)], "pkgb.util.C") /\
+  OrigRespelled.regs (get_configurable_orig (OrigRespelled.after1 get_configurable_orig) OrigRespelled.c2 "u.C.meth")
+    = inl ([("pkgb.util.C", 1); ("pkgb.u.C", 1); ("pkgb.u.C.meth", 2)], "pkgb.u.C.meth") /\
+  (forall reg full rp, get_configurable_orig (OrigRespelled.after1 get_configurable_orig) OrigRespelled.c2 "u.C.meth" = DOk (reg, full, rp) ->
+     ~ one_per_obj reg) /\
+  OrigRespelled.regs (get_configurable (OrigRespelled.after1 get_configurable) OrigRespelled.c2 "u.C.meth")
+    = inl ([("pkgb.util.C", 1); ("pkgb.util.C.meth", 2)], "pkgb.util.C.meth").
+Proof. exact OrigRespelled.C19_orig_class_registered_twice. Qed.
+(* (F22b) ... and after  util.C.meth2.x = 7  the statement  u.C.meth.x = 5 , valid in its file, was rejected: the class's new
+   registration pkgb.u.C is refused because meth2 is registered under pkgb.util.C *)
+Theorem C19_orig_valid_method_statement_rejected :
+  provides OrigRespelled.c2 "u.C.meth" = true /\
+  OrigRespelled.regs (get_configurable_orig [] OrigRespelled.c1 "util.C.meth2")
+    = inl ([("pkgb.util.C", 1); ("pkgb.util.C.meth2", 3)], "pkgb.util.C.meth2") /\
+  OrigRespelled.regs (get_configurable_orig (OrigRespelled.after1m get_configurable_orig) OrigRespelled.c2 "u.C.meth") = inr "ValueError" /\
+  OrigRespelled.regs (get_configurable (OrigRespelled.after1m get_configurable) OrigRespelled.c2 "u.C.meth")
+    = inl ([("pkgb.util.C.meth2", 3); ("pkgb.util.C", 1); ("pkgb.util.C.meth", 2)], "pkgb.util.C.meth").
+Proof. exact OrigRespelled.C19_orig_valid_method_statement_rejected. Qed.
 Theorem C19_registry_stays_functional : forall reg c sel reg' full rp, reg_wf reg ->
   get_configurable reg c sel = DOk (reg', full, rp) -> reg_wf reg'.
 Proof. exact get_configurable_wf. Qed.
@@ -226,6 +280,34 @@ Theorem C19_orig_feature_statement_realiased :
   process_all Findings.univ_P empty_ctx (header_imports_addorig Findings.s_P []) = DErr "SyntaxError" /\
   process_all Findings.univ_P empty_ctx (header_imports_orig Findings.s_P []) = DErr "SyntaxError".
 Proof. exact Findings.C19_orig_feature_statement_realiased. Qed.
+
+(* ---- recorded imports (_IMPORTS): repaired parse_config records an import as soon as it took effect ---- *)
+(* what a parse call records, failed or not: what was recorded before and the imports of the context the run ended in *)
+Theorem C19_parse_call_imports_exact : forall univ sk stmts s refs s' refs' c' e,
+  run_stmts_sk should_skip_dyn univ sk stmts s refs empty_ctx = (s', refs', c', e) ->
+  forall d, In d (ds_imports (fst (fst (parse_call_sk univ sk stmts (s, refs))))) <-> In d (ds_imports s) \/ In d (c_imports c').
+Proof. exact DynRegProofs2.parse_call_sk_imports_exact. Qed.
+(* the imports of every successfully processed prefix of a text are recorded, whatever the statements after it do *)
+Theorem C19_effective_imports_recorded : forall univ sk pre post s refs s1 refs1 c1,
+  run_stmts_sk should_skip_dyn univ sk pre s refs empty_ctx = (s1, refs1, c1, None) ->
+  forall d, In d (c_imports c1) -> In d (ds_imports (fst (fst (parse_call_sk univ sk (pre ++ post) (s, refs))))).
+Proof. exact DynRegProofs2.C19_effective_imports_recorded. Qed.
+Theorem C19_recorded_imports_kept : forall univ sk stmts sr d,
+  In d (ds_imports (fst sr)) -> In d (ds_imports (fst (fst (parse_call_sk univ sk stmts sr)))).
+Proof. exact DynRegProofs2.C19_recorded_imports_kept. Qed.
+(* the code before the repair (imports recorded once, after the last statement):
+   from __gin__ import dynamic_registration / import dmod / nosuch.fn.x = 1  fails with NameError having recorded nothing *)
+Theorem C19_orig_failed_parse_loses_imports :
+  OrigImports.obs (parse_call_sk_orig OrigImports.univ DSkFalse OrigImports.stmts OrigImports.init) = ([], OErr "NameError") /\
+  OrigImports.obs (parse_call_orig OrigImports.univ OrigImports.stmts OrigImports.init) = ([], OErr "NameError") /\
+  OrigImports.obs (parse_call_sk OrigImports.univ DSkFalse OrigImports.stmts OrigImports.init)
+    = ([OrigImports.feat; OrigImports.imp_dmod], OErr "NameError") /\
+  OrigImports.obs (parse_call OrigImports.univ OrigImports.stmts OrigImports.init)
+    = ([OrigImports.feat; OrigImports.imp_dmod], OErr "NameError") /\
+  (let '(_, _, c, e) := run_stmts_sk should_skip_dyn OrigImports.univ DSkFalse [DImport OrigImports.feat; DImport OrigImports.imp_dmod]
+                          (fst OrigImports.init) (snd OrigImports.init) empty_ctx in
+   (c_imports c, e)) = ([OrigImports.feat; OrigImports.imp_dmod], None).
+Proof. exact OrigImports.C19_orig_failed_parse_loses_imports. Qed.
 
 (* ---- skip_unknown under dynamic registration (Proofs/DynRegSkip.v) ---- *)
 (* skip_unknown=False is the plain parse; resolving a reference first and then running its binding is running the binding *)
@@ -389,6 +471,11 @@ Print Assumptions C19_missing_attribute.
 Print Assumptions C19_exact_object.
 Print Assumptions C19_exact_object_needs_distinct_ids.
 Print Assumptions C19_spelling_same_configurable.
+Print Assumptions C19_class_keeps_selector_via_method.
+Print Assumptions C19_one_configurable_per_object.
+Print Assumptions C19_one_configurable_per_object_step.
+Print Assumptions C19_orig_class_registered_twice.
+Print Assumptions C19_orig_valid_method_statement_rejected.
 Print Assumptions C19_registry_stays_functional.
 Print Assumptions C19_registry_monotone.
 Print Assumptions C19_reference_survives_step.
@@ -434,3 +521,7 @@ Print Assumptions C15_dyn_placeholder_binding.
 Print Assumptions C15_dyn_placeholder_binding_dropped.
 Print Assumptions C15_dyn_placeholder_registers_nothing.
 Print Assumptions C15_dyn_provided_reference_resolved.
+Print Assumptions C19_parse_call_imports_exact.
+Print Assumptions C19_effective_imports_recorded.
+Print Assumptions C19_recorded_imports_kept.
+Print Assumptions C19_orig_failed_parse_loses_imports.
